@@ -233,6 +233,22 @@ def hx(b) -> str:
     return "x" + bytes(b).hex()
 
 
+def cp(s) -> str:
+    """token of a Python str / bytes as a list of CODE POINTS (latin-1 hex when all < 256)"""
+    if isinstance(s, (bytes, bytearray)):
+        return "x" + bytes(s).hex()
+    if all(ord(c) < 256 for c in s):
+        return "x" + s.encode("latin-1").hex()
+    return "u" + ".".join("%x" % ord(c) for c in s)
+
+
+def uncp(t: str) -> str:
+    if t.startswith("x"):
+        return bytes.fromhex(t[1:]).decode("latin-1")
+    assert t.startswith("u"), t
+    return "".join(chr(int(p, 16)) for p in t[1:].split(".") if p)
+
+
 def unhx(t: str) -> bytes:
     assert t.startswith("x"), t
     return bytes.fromhex(t[1:])
